@@ -553,7 +553,9 @@ func RunHistory[W any](sc *Scenario[W], seedName string, history []string) (fail
 				}()
 			}
 		}
-		if len(fails) > 0 {
+		// (every prefix is judged: a later prefix may fail another clause, and the
+		// driver asks for the clause it saw)
+		if len(fails) > 40 {
 			break
 		}
 	}
